@@ -281,14 +281,14 @@ def deviant_set(deep, seed=0):
     out.append(('rsa/wrong_key_at_b', hs + tail, {'rsa': [RSA[0], RSA[3], RSA[2], RSA[3]]}, 19, set()))
     out.append(('rsa/wrong_key_at_a', hs + tail, {'rsa': [RSA[0], RSA[1], RSA[2], RSA[1]]}, 19, set()))
     if not deep:
-        # the quick tier takes a seeded third of the deviations and reinjections and half of the asymmetric
+        # the quick tier takes a seeded quarter of the deviations, a third of the reinjections and of the asymmetric
         # configurations (the seed rotates them); everything else always
         rng = random.Random(seed)
         dev = [x for x in out if x[0].startswith('dev')]
         rei = [x for x in out if x[0].startswith('edge/reinject')]
         asym = [x for x in out if x[0].startswith('asym')]
         rest = [x for x in out if not x[0].startswith(('dev', 'edge/reinject', 'asym'))]
-        out = (rng.sample(dev, len(dev) // 3) + rng.sample(rei, len(rei) // 3) + rng.sample(asym, len(asym) // 2) + rest)
+        out = (rng.sample(dev, len(dev) // 4) + rng.sample(rei, len(rei) // 3) + rng.sample(asym, len(asym) // 3) + rest)
     return out
 
 
@@ -348,7 +348,7 @@ def correspond(ctx, deep=False, project=None, only=None):
                 ctx.count(f'hdl-call-kind-{c[0]}')
     # the same histories, iteration by iteration, through the whole-endpoint model (table, routing, registration,
     # teardown, timer sweeps are computed by the model there instead of being taken from the recording)
-    res_ep = check_endpoints(ctx, {k: v[0] for k, v in alllogs.items()}, 'all', shard=2)
+    res_ep = check_endpoints(ctx, {k: v[0] for k, v in alllogs.items()}, 'all', shard=4)
     for name, idx, ev, path, m, r in res_ep:
         key = name.split('/', 1)[1]
         lg, acts, conf, seed = alllogs[key]
@@ -358,7 +358,7 @@ def correspond(ctx, deep=False, project=None, only=None):
             f'{key}: main_loop iteration #{idx} (event {str(ev)[:200]}) differs in {what.get(path[0] if path else -1, path)} at {path}: '
             f'model {str(m)[:300]} / code {str(r)[:300]}',
             {'scenario': key, 'actions': acts, 'conf': conf, 'seed': seed, 'iteration': idx}))
-    res = check_logs(ctx, {k: v[0] for k, v in alllogs.items()}, 'all', project=project, shard=2)
+    res = check_logs(ctx, {k: v[0] for k, v in alllogs.items()}, 'all', project=project, shard=4)
     for name, idx, call, path, m, r in res:
         key = name.split('/', 1)[1]
         lg, acts, conf, seed = alllogs[key]
